@@ -48,6 +48,8 @@ BASE = {
     "/proj/pages/index.md": b"title: T", "/proj/pages/images/pic.txt": b"pic", "/proj/pages/data/nested/table.csv": b"1,2",
     "/proj/pages/notes.txt": b"notes", "/proj/pages/guide/index.md": b"title: G", "/proj/pages/guide/fig.png": b"fig",
     "/proj/proj.md": b"project file", "/home/user/precious.txt": b"do not touch", "/cwd/keep.txt": b"working directory",
+    # a symbolic link in the media directory whose target does not exist (yet), in a directory that does
+    "/proj/media/thumb.png": vfs.Link("/home/user/cache/thumb.png"), "/home/user/cache/.keep": b"",
 }
 
 
